@@ -361,17 +361,26 @@ structure NsecConsts where
   tDS : Nat
   tRRSIG : Nat
   tNSEC : Nat
+  /-- which rdatasets of a delegation point enter its NSEC bitmap: `false` = as shipped (all of the node's),
+  `true` = intended (RFC 4035 §2.3: only NS and DS; the parent is not authoritative for the rest) -/
+  cutTypes : Bool := false
 
 def lookupNode (nodes : List ZNode) (n : Name) : Option ZNode :=
   nodes.find? (fun z => nameEq z.name n)
 
+/-- the types of `node` that are announced in its NSEC bitmap (before RRSIG and NSEC are added) -/
+def nsecTypes (c : NsecConsts) (zorigin : Name) (node : ZNode) : List Nat :=
+  if c.cutTypes && (node.types.contains c.tNS && !(nameEq node.name zorigin) && truthy node.name) then
+    node.types.filter fun t => t == c.tNS || t == c.tDS
+  else node.types
+
 /-- `_txn_add_nsec` -/
-def addNsec (c : NsecConsts) (nodes : List ZNode) (withSigner : Bool) (name next : Name) : List Evt :=
+def addNsec (c : NsecConsts) (zorigin : Name) (nodes : List ZNode) (withSigner : Bool) (name next : Name) : List Evt :=
   match lookupNode nodes name with
   | none => []
   | some node =>
     if node.types.length != 0 && truthy next then
-      [Evt.nsec name next (fromRdtypes (node.types ++ [c.tRRSIG, c.tNSEC]))] ++
+      [Evt.nsec name next (fromRdtypes (nsecTypes c zorigin node ++ [c.tRRSIG, c.tNSEC]))] ++
         (if withSigner then [Evt.sign name c.tNSEC] else [])
     else []
 
@@ -400,9 +409,9 @@ def signEvts (c : NsecConsts) (withSigner : Bool) (deleg : Option Name) (node : 
   else []
 
 /-- `if last_secure is not None: _txn_add_nsec(txn, last_secure, name, …)` -/
-def linkFrom (c : NsecConsts) (nodes : List ZNode) (withSigner : Bool) (last : Option Name) (name : Name) : List Evt :=
+def linkFrom (c : NsecConsts) (zorigin : Name) (nodes : List ZNode) (withSigner : Bool) (last : Option Name) (name : Name) : List Evt :=
   match last with
-  | some l => addNsec c nodes withSigner l name
+  | some l => addNsec c zorigin nodes withSigner l name
   | none => []
 
 /-- `txn.get(name, NS) and name != zone.origin` decides the new value of `delegation` -/
@@ -416,7 +425,7 @@ def walkStep (c : NsecConsts) (origin : Name) (nodes : List ZNode) (withSigner :
   else
     { delegation := newDeleg c origin node, lastSecure := some node.name,
       out := st.out ++ signEvts c withSigner (newDeleg c origin node) node ++
-        linkFrom c nodes withSigner st.lastSecure node.name }
+        linkFrom c origin nodes withSigner st.lastSecure node.name }
 
 /-- the walk over an already sorted node list, and the wrap-around to the origin -/
 def walkSorted (c : NsecConsts) (v : LastVariant) (origin : Name) (nodes : List ZNode) (withSigner : Bool)
@@ -426,7 +435,7 @@ def walkSorted (c : NsecConsts) (v : LastVariant) (origin : Name) (nodes : List 
   | none => st.out
   | some l =>
     if (match v with | .asShipped => truthy l | .intended => true) then
-      st.out ++ addNsec c nodes withSigner l origin
+      st.out ++ addNsec c origin nodes withSigner l origin
     else st.out
 
 def signZoneNsec (c : NsecConsts) (v : LastVariant) (origin : Name) (nodes : List ZNode) (withSigner : Bool) : List Evt :=
